@@ -16,7 +16,10 @@
 // protobuf message and travels as its own payload, without any registered
 // encoder or decoder; only receivers at its newest name are explored (the
 // protobuf type registry is global to the OS process: see the LIMITATION
-// paragraph in types_proto.go).
+// paragraph in types_proto.go). The marker lineage (types_marker.go) has
+// types that implement ErrorKeyMarker; in the receiver-kind lineages
+// (types_recv.go) a rename also changes a pointer type into a value type or
+// back.
 //
 // Every type has a field Code that Error() does not show: it only crosses
 // the wire in the payload of a custom encoder.
@@ -249,7 +252,7 @@ func (e *GWrapV1[P]) fields() (string, string) { return e.Msg, e.Code }
 // version is one name of a lineage: the Go types that carry that name.
 type version struct {
 	label      string
-	leafProto  error // typed nil pointers, for registration and reflect
+	leafProto  error // typed nil pointers (zero values of value types), for registration and reflect
 	wrapProto  error
 	multiProto error // nil: the lineage has no multi-cause type
 	newLeaf    func(msg, code string) error
@@ -273,7 +276,13 @@ func (v *version) multiType() reflect.Type { return reflect.TypeOf(v.multiProto)
 func (v *version) leafName() string  { return v.leafType().String() }
 func (v *version) wrapName() string  { return v.wrapType().String() }
 func (v *version) multiName() string { return v.multiType().String() }
-func (v *version) pkg() string       { return v.leafType().Elem().PkgPath() }
+func (v *version) pkg() string {
+	t := v.leafType()
+	if t.Kind() == reflect.Ptr {
+		t = t.Elem()
+	}
+	return t.PkgPath()
+}
 
 // protos lists the error types of the version with their role.
 func (v *version) protos() []typedProto {
@@ -363,6 +372,8 @@ type lineage struct {
 	protoNative bool
 	// marker: the types implement ErrorKeyMarker (types_marker.go).
 	marker bool
+	// recvKind: the renames also change pointer <-> value (types_recv.go).
+	recvKind bool
 }
 
 func (l *lineage) maxN() int { return len(l.chain) - 1 }
@@ -397,6 +408,8 @@ var (
 		{name: "generic-pointer", chain: genericChain[*Payload](), kinds: genericKinds},
 		protoNativeLineage,
 		markerLineage,
+		recvPVPLineage,
+		recvVPVLineage,
 	}
 )
 
